@@ -57,7 +57,7 @@ def cases(tier, seed, shard, nshards):
                 for mode in (False, True):
                     yield {"lib": [UNIVERSE[i] for i in sel], "order": ORDERS[oi], "pc": mode}
     r = rng_for(seed, shard, "c16")
-    for _ in range(tier_pick(tier, 12000, 300000) // nshards):
+    for _ in range(tier_pick(tier, 24000, 1200000) // nshards):
         n = r.randint(4, 40)
         specs = []
         for j in range(n):
